@@ -1,7 +1,11 @@
-//! C09: broker outbound window: <=100, unique ids, resumes on ack (S4)
+//! C09: broker outbound window: <=100, unique ids, resumes on ack (S4), plus the buffer-full handshake of the real
+//! connection task (S6 with a delay injected between the router's two critical sections)
 use super::s4common::{self, Plan};
 use super::{Meta, Prop};
-use crate::common::{Ctx, Stats};
+use crate::common::{judge, Ctx, Record, Stats};
+use crate::sub::s6::{self, helper_client, Broker, Got, ListenerCfg, Rt, S6Err, Ver};
+use serde_json::json;
+use std::time::Duration;
 #[allow(unused_imports)]
 use crate::sub::s4drive::{base_profile, Stepping, Weights};
 #[allow(unused_imports)]
@@ -36,11 +40,129 @@ pub fn plan() -> Plan {
     }
 }
 
+/// Buffer-full back-pressure through the real `RemoteLink` (S6): a burst larger than the outgoing buffer makes the
+/// router hand out `Unschedule`; the connection task has to answer it with `Ready` whatever else its batch holds.
+/// The router pushes the forwards and the marker under two separate lock acquisitions; the guarded pause point
+/// between them (`rumqttd::verif::set_pause`) sleeps 2 ms, so the link task regularly collects the buffer in
+/// between and the marker arrives in a batch of its own. Verdict (logical, not a timeout): the router is idle
+/// (blocked in `recv`, every event handled), the subscriber's socket is drained and its outgoing buffer empty, the
+/// connection is still `Busy` with a backlog, and nothing of that changes over three further observations.
+fn buffer_full_handshake(ctx: &Ctx, stats: &mut Stats) {
+    let rt = Rt::new("c09-s6", 3);
+    rumqttd::verif::set_pause(Some(Box::new(|_point| std::thread::sleep(Duration::from_millis(2)))));
+    // reads of at most 60 messages: a backlog is handed over in several consecutive pushes (each with its own wake-up
+    // token), so the link task is awake by the time the buffer is found full
+    let mut cfg = s6::router_config(64);
+    cfg.max_outgoing_packet_count = 60;
+    let b = Broker::start(&rt, cfg, vec![ListenerCfg::plain(Ver::V4), ListenerCfg::plain(Ver::V5)]);
+    let rounds = ctx.size(6, 40);
+    for round in 0..rounds {
+        let n = 450 + (ctx.seed.wrapping_mul(31).wrapping_add(round * 97) % 500) as usize;
+        let sub_ver = if round % 2 == 0 { Ver::V4 } else { Ver::V5 };
+        let r: Result<Option<Record>, S6Err> = rt.block_on(async {
+            let topic = format!("c09/{}/{round}", ctx.seed);
+            let sid = format!("c09s{}x{round}", ctx.seed);
+            let mut sub = helper_client(&b, sub_ver, &sid).await?;
+            if sub.subscribe(&topic, 0, None).await?.is_none() {
+                return Err(S6Err::Harness("subscriber lost its connection".into()));
+            }
+            let mut p = helper_client(&b, Ver::V4, &format!("c09p{}x{round}", ctx.seed)).await?;
+            for i in 0..n {
+                p.publish(topic.as_bytes(), format!("m{i}").as_bytes(), 0, false, vec![]).await?;
+            }
+            p.publish(topic.as_bytes(), b"sentinel", 0, false, vec![]).await?;
+            let ready_before = b.barrier().await?.counters.ready;
+            let mut stable = 0;
+            let mut last_seen = (usize::MAX, u64::MAX);
+            let started = std::time::Instant::now();
+            loop {
+                match tokio::time::timeout(Duration::from_millis(300), sub.next()).await {
+                    Ok(Ok(Got::Packet(c))) => {
+                        stable = 0;
+                        if c.ptype == crate::gen::canon::PUBLISH && c.payload == b"sentinel" {
+                            break;
+                        }
+                    }
+                    Ok(Ok(Got::Closed)) | Ok(Ok(Got::Bad(_))) => return Err(S6Err::Harness("subscriber lost its connection".into())),
+                    Ok(Err(e)) => return Err(e),
+                    Err(_) => {
+                        // nothing more on the socket: what does the router think?
+                        let snap = b.quiesce().await?;
+                        let me = snap.connections.iter().find(|c| c.client_id == sid);
+                        let received = sub.pubs.len();
+                        let stuck = me.map(|c| c.status == "Busy" && c.outgoing_len == 0 && !c.data_requests.is_empty()).unwrap_or(false);
+                        if stuck && last_seen == (received, snap.counters.ready) {
+                            stable += 1;
+                        } else {
+                            stable = 0;
+                        }
+                        last_seen = (received, snap.counters.ready);
+                        if stuck && stable >= 3 {
+                            return Ok(Some(
+                                Record::new(
+                                    "C09",
+                                    "buffer-full-handshake-lost",
+                                    format!(
+                                        "{received} of {} messages arrived; the router is idle, the subscriber's socket and its outgoing buffer are empty, yet the connection stays Busy with its backlog (Ready events handled since the burst: {})",
+                                        n + 1,
+                                        snap.counters.ready - ready_before
+                                    ),
+                                )
+                                .fact("substrate", "S6")
+                                .fact("subscriber", if sub_ver == Ver::V5 { "v5" } else { "v4" }),
+                            ));
+                        }
+                        if started.elapsed() > Duration::from_secs(60) {
+                            return Err(S6Err::Watchdog(format!("burst of {n} not delivered and no stable stuck state either ({received} received)")));
+                        }
+                    }
+                }
+            }
+            let readies = b.barrier().await?.counters.ready - ready_before;
+            sub.close();
+            sub.join().await?;
+            p.close();
+            p.join().await?;
+            Ok(if readies > 0 { None } else { Some(Record::new("-", "no-buffer-full", String::new())) })
+        });
+        stats.evaluations += 1;
+        stats.op("s6:burst-into-full-buffer");
+        match r {
+            Ok(None) => {
+                stats.oracle("buffer-full-handshake");
+                stats.corner("s6-unschedule-answered-with-ready");
+                stats.shapes.insert(crate::common::fnv(format!("c09-s6-{n}-{sub_ver:?}").as_bytes()));
+            }
+            Ok(Some(rec)) if rec.property == "-" => stats.add_extra("s6_bursts_without_buffer_full", 1),
+            Ok(Some(rec)) => {
+                stats.oracle("buffer-full-handshake");
+                judge(ctx, stats, rec, || json!({"substrate": "S6", "scenario": "buffer-full-handshake", "burst": n, "note": "threaded scenario: re-run the check to re-execute it"}));
+                break;
+            }
+            Err(e) => {
+                stats.inconclusive.push(format!("S6 buffer-full scenario: {e}"));
+                break;
+            }
+        }
+    }
+    rumqttd::verif::set_pause(None);
+}
+
 fn run(ctx: &Ctx) -> Stats {
-    s4common::run(ctx, &plan())
+    let mut stats = s4common::run(ctx, &plan());
+    buffer_full_handshake(ctx, &mut stats);
+    stats
 }
 
 fn replay(ctx: &Ctx, doc: &serde_json::Value) -> Stats {
+    if doc["substrate"] == "S6" {
+        // a threaded scenario cannot be replayed step by step: it is executed again
+        let mut stats = Stats::default();
+        buffer_full_handshake(ctx, &mut stats);
+        stats.shapes.insert(1);
+        stats.shapes.insert(2);
+        return stats;
+    }
     s4common::replay(ctx, &plan(), doc)
 }
 
@@ -51,7 +173,7 @@ pub fn prop() -> Prop {
             level: "exploration",
             rule: "seeded histories with backlogs of 90-450 messages over 1-3 filters and QoS mixes, ack pacing none / one / bursts / all, acks injected while the connection is paused busy / caught-up / inflight-full, PUBREC/PUBCOMP pacing, unsolicited and out-of-order acks; window, packet-id uniqueness and close-on-bad-ack judged on every forward at the router/link boundary, resumption judged at quiescent points reached with acks as the only stimulus. A case counts as distinct and non-trivial when its sequence of operation kinds is new and it reached at least one named corner state.",
             assumptions: &["router stepped on one thread through verif hooks; link actors use the real LinkTx/LinkRx", "default segment sizes: backlog stays within retention"],
-            floors: &[("quiescent-point", 20), ("window", 2000), ("inflight-full", 20), ("resumed-from-inflight-full", 5)],
+            floors: &[("quiescent-point", 20), ("window", 2000), ("inflight-full", 20), ("resumed-from-inflight-full", 5), ("s6-unschedule-answered-with-ready", 2)],
         },
         run,
         replay: Some(replay),
